@@ -145,7 +145,7 @@ var (
 	reUFun    = regexp.MustCompile(`^ufun\s+(\w+)\s*\(([^)]*)\)\s*(.+)$`)
 	reDefine  = regexp.MustCompile(`^(define|defrec)\s+(\w+)\s*\(([^)]*)\)\s*([^=]+?)\s*=\s*(.+)$`)
 	reAxiom   = regexp.MustCompile(`^(axiom|lemma)\s+(\w+)\s*(?:\[([^\]]*)\])?\s*:\s*(.+)$`)
-	reLabel   = regexp.MustCompile(`^(\w[\w.-]*)\s*:\s+(.*)$`)
+	reLabel   = regexp.MustCompile(`^(\w[\w.@-]*)\s*:\s+(.*)$`)
 )
 
 func splitNames(s string) []string {
@@ -201,6 +201,11 @@ func (db *SpecDB) LoadContractFile(path, defaultPkg string) error {
 				cl.Label = m[1]
 				rest = m[2]
 				cl.Src = rest
+				// "label@C17: ..." restricts the clause to that property (a function may serve several)
+				if at := strings.Index(cl.Label, "@"); at >= 0 {
+					cl.Props = strings.Split(cl.Label[at+1:], "@")
+					cl.Label = cl.Label[:at]
+				}
 			}
 		}
 		e, err := ParseExpr(rest)
